@@ -72,7 +72,8 @@ Check module_run_total :
 Print Assumptions module_run_total.
 
 (** Every panic-capable site the translator finds in machine.rs, stack.rs, scope.rs, data.rs,
-    error.rs, io.rs, context.rs and codemap.rs is accounted for by the model. *)
+    error.rs, io.rs, context.rs, codemap.rs and serialize.rs is accounted for: a Panic branch of the
+    model with its guard transcribed, or an explicit entry saying why the call cannot panic. *)
 Theorem ledger_complete : ledger_complete_stmt.
 Proof. exact ledger_complete_proof. Qed.
 Check ledger_complete : forall s : site, In s vm_sites -> exists d : disposition, In (s, d) ledger.
